@@ -72,37 +72,40 @@ def check(ctx, run):
         fobjs = [W.feature(c, **({"log": False} if c == "Moneyness" else {})) for c in feats]
         h = W.hedger(prog, fobjs)
         res = [r for r in interp.explore(ch, [W.option()], {}, self_obj=h) if not r["raises"]]
-        if len(res) != 1:
-            raise AnalysisError(f"compute_hedge ({name}): expected one path, found {len(res)}")
-        r = res[0]
-        calls = [e for e in r["events"] if e["kind"] == "opaque_call" and isinstance(e["callee"], Sym) and e["callee"].name == "model"]
-        loops = [e for e in r["events"] if e["kind"] == "loop_begin"]
-        # R2: what reaches the model
-        ok2 = bool(calls)
-        detail = ""
-        for c in calls:
-            arg = c["args"][0]
-            w = Window()
-            d = w.of(arg)
-            if name == "vectorised":
-                good = all(le(hi, j) for _, (lo, hi) in d.deps.items())
-            else:
-                iv = [v for k, v in w.env.items() if k.startswith("i#")]
-                bound = iv[0] if iv else None
-                good = bound is not None and all(le(hi, bound) for _, (lo, hi) in d.deps.items())
-            detail = f"model input reads {d}"
-            ok2 = ok2 and good
-        run.oblige("C02.R2", f"compute_hedge[{name}]", ok2, detail, sample={"rule": "C02.R2", "branch": name, "model_input": detail})
-        if not ok2:
-            run.fail(Finding("C02.R2", ch.qualname, f"{name} branch: {detail}", "the model is fed information beyond the current step",
-                             file=str(prog.modules[ch.module].path), line=ch.node.lineno, case=name))
-        # R3: last column
-        val = r["value"]
-        ok3, why = last_column_is_copy(val, name, loops)
-        run.oblige("C02.R3", f"compute_hedge[{name}]", ok3, why, sample={"rule": "C02.R3", "branch": name, "last_column": why})
-        if not ok3:
-            run.fail(Finding("C02.R3", ch.qualname, f"{name} branch: {why}", "the position at the final time index is not the one held over the last step",
-                             file=str(prog.modules[ch.module].path), line=ch.node.lineno, case=name))
+        if not res:
+            raise AnalysisError(f"compute_hedge ({name}): no analysable path")
+        base_name = name
+        for r in res:
+            # a data-dependent decision inside the branch (e.g. on output.requires_grad) gives several paths: each must satisfy R2 and R3
+            name = base_name + ("" if len(res) == 1 else "|" + ",".join(f"{str(c)[:40]}={d}" for c, d, _ in r["cond"]))
+            calls = [e for e in r["events"] if e["kind"] == "opaque_call" and isinstance(e["callee"], Sym) and e["callee"].name == "model"]
+            loops = [e for e in r["events"] if e["kind"] == "loop_begin"]
+            # R2: what reaches the model
+            ok2 = bool(calls)
+            detail = ""
+            for c in calls:
+                arg = c["args"][0]
+                w = Window()
+                d = w.of(arg)
+                if base_name == "vectorised":
+                    good = all(le(hi, j) for _, (lo, hi) in d.deps.items())
+                else:
+                    iv = [v for k, v in w.env.items() if k.startswith("i#")]
+                    bound = iv[0] if iv else None
+                    good = bound is not None and all(le(hi, bound) for _, (lo, hi) in d.deps.items())
+                detail = f"model input reads {d}"
+                ok2 = ok2 and good
+            run.oblige("C02.R2", f"compute_hedge[{name}]", ok2, detail, sample={"rule": "C02.R2", "branch": name, "model_input": detail})
+            if not ok2:
+                run.fail(Finding("C02.R2", ch.qualname, f"{name} branch: {detail}", "the model is fed information beyond the current step",
+                                 file=str(prog.modules[ch.module].path), line=ch.node.lineno, case=name))
+            # R3: last column
+            val = r["value"]
+            ok3, why = last_column_is_copy(val, base_name, loops)
+            run.oblige("C02.R3", f"compute_hedge[{name}]", ok3, why, sample={"rule": "C02.R3", "branch": name, "last_column": why})
+            if not ok3:
+                run.fail(Finding("C02.R3", ch.qualname, f"{name} branch: {why}", "the position at the final time index is not the one held over the last step",
+                                 file=str(prog.modules[ch.module].path), line=ch.node.lineno, case=name))
     if ctx.tier == "thorough":
         thorough_all_features(ctx, run, ch)
 
@@ -156,6 +159,16 @@ def last_column_is_copy(val, name, loops):
     while isinstance(t, Op) and t.op in ("transpose", "contiguous"):
         t = t.args[0]
     if name == "vectorised":
+        if isinstance(t, Op) and t.op == "cat" and isinstance(t.args[0], (list, tuple)) and len(t.args[0]) == 2 and t.kwd().get("dim", t.args[1] if len(t.args) > 1 else None) == -2:
+            # the model evaluated on steps 0..T-2 and the last position appended once more
+            x, tail = t.args[0]
+            okx = isinstance(tail, Op) and tail.op == "index" and tail.args[0] == x and isinstance(tail.args[1], tuple) and len(tail.args[1]) >= 2 and tail.args[1][-2] == slice(-1, None, None)
+            if not okx:
+                return False, f"appended column {str(tail)[:80]} is not the last column of the model output"
+            ins = [s_ for s_ in walk(x) if isinstance(s_, Op) and s_.op == "index" and isinstance(s_.args[1], tuple) and len(s_.args[1]) >= 2 and s_.args[1][-2] == slice(None, -1, None)]
+            if not ins:
+                return False, "the model is not evaluated on steps 0..T-2 only"
+            return True, "cat((model(steps 0..T-2), its last column), dim=-2)"
         if not (isinstance(t, Op) and t.op == "setitem"):
             return False, f"result is {t.op if isinstance(t, Op) else t}: the maturity column is not overwritten"
         base, idx, v = t.args
@@ -261,3 +274,8 @@ _check_r123 = check
 def check(ctx, run):  # noqa: F811
     _check_r123(ctx, run)
     models_read_input_only(ctx, run)
+    # R5 containers: a FeatureList is the concatenation of its members' values at the same step and a ModuleOutput is its module applied
+    # to exactly that tensor, so both read what their (adapted, R1) members read and nothing else - a reshape/stack that mixes the time
+    # axis with the path axis, or a member evaluated at another step, breaks the identity
+    from .c03 import containers
+    containers(ctx, run, rule="C02.R5")
